@@ -1,5 +1,5 @@
-CONSTANT Cfgs <- CfgList
+CONSTANT Cfgs <- CfgSet
 SPECIFICATION Spec
-INVARIANTS TypeOK ChannelOk WriteBound LineBound ImageBound
-PROPERTIES Rightward
+INVARIANTS TypeOK ChannelOk WriteBound LineBound InnerBound
+PROPERTIES Rightward ScanRight
 CHECK_DEADLOCK FALSE
